@@ -4,8 +4,9 @@ Schemas of qxmpp stanza / nonza classes, transcribed from the C++ `toXml` + `fro
 (file and line of the pair given with each schema; /repo at the pinned tree).  Field order = the
 order in which `toXml` writes, so `encode` reproduces the library's own output form.
 
-A schema ending in `Code` models today's code where it differs from what C01 demands; the matching
-schema without the suffix is the code with the fix under /verif/fixes applied.
+(Where the code differs from what C01 demands the convention is a second schema ending in `Code` that
+models the code as it is, e.g. with `Field.attrReadOnly`; at the pinned tree no class needs one:
+`FastFeature::toXml` writes `tls-0rtt` since /repo e3c2af8.)
 No proofs here, no Mathlib.
 -/
 namespace Qx.Xml.Codec.Classes
@@ -110,11 +111,8 @@ def bind2BoundFields : List Field := [
 def Bind2Bound := nonza (declHead "bound" nsBind2) bind2BoundFields
 
 def fastMechanisms : Field := .many (inhHead "mechanism" nsFast) [.text .str] false
-/-- today's `FastFeature`: `fromDom` reads `tls-0rtt`, `toXml` never writes it
-(src/base/QXmppSasl.cpp:278-301) -/
-def fastFeatureFieldsCode : List Field := [fastMechanisms, .attrReadOnly (s "tls-0rtt") boolTrue1]
-def FastFeatureCode := nonza (declHead "fast" nsFast) fastFeatureFieldsCode
-/-- with /verif/fixes/C01-fastfeature-tls0rtt.diff: the attribute is written when set -/
+/-- `FastFeature` (src/base/QXmppSasl.cpp:289-318); `tls-0rtt` is written when set (since /repo e3c2af8,
+before that `toXml` dropped it: fixed finding C01:field-mismatch:FastFeature:tls0rtt) -/
 def fastFeatureFields : List Field := [fastMechanisms, .attr (s "tls-0rtt") boolTrue1 true]
 def FastFeature := nonza (declHead "fast" nsFast) fastFeatureFields
 
@@ -129,7 +127,6 @@ def sasl2StreamFeatureFieldsWith (fast : List Field) : List Field := [
     .child (declHead "bind" nsBind2) bind2FeatureFields .optional,
     .child (declHead "fast" nsFast) fast .optional,
     .flagChild (declHead "sm" nsSm)] .wrapOmit]
-def Sasl2StreamFeatureCode := nonza (declHead "authentication" nsSasl2) (sasl2StreamFeatureFieldsWith fastFeatureFieldsCode)
 def Sasl2StreamFeature := nonza (declHead "authentication" nsSasl2) (sasl2StreamFeatureFieldsWith fastFeatureFields)
 
 def Sasl2Failure := nonza (declHead "failure" nsSasl2) [
@@ -247,17 +244,16 @@ scope for its children.  `parse` has no type check. -/
 def streamFeaturesWith (sasl2 : List Field) : Schema :=
   { head := ⟨s "stream:features", nsClient, false, false, false⟩, fields := streamFeaturesFieldsWith sasl2,
     check := .unchecked, inh := nsClient }
-def StreamFeaturesCode := streamFeaturesWith (sasl2StreamFeatureFieldsWith fastFeatureFieldsCode)
 def StreamFeatures := streamFeaturesWith (sasl2StreamFeatureFieldsWith fastFeatureFields)
 
-/-- every modelled class by the name the harness uses; `Code` variants are what runs today -/
+/-- every modelled class by the name the harness uses -/
 def all : List (String × Schema) := [
   ("SmEnable", SmEnable), ("SmEnabled", SmEnabled), ("SmResume", SmResume), ("SmResumed", SmResumed),
   ("SmFailed", SmFailed), ("SmAck", SmAck), ("SmRequest", SmRequest),
   ("SaslSuccess", SaslSuccess), ("StarttlsRequest", StarttlsRequest), ("StarttlsProceed", StarttlsProceed),
   ("Bind2Feature", Bind2Feature), ("Bind2Request", Bind2Request), ("Bind2Bound", Bind2Bound),
-  ("FastFeature", FastFeatureCode), ("FastTokenRequest", FastTokenRequest), ("FastRequest", FastRequest),
-  ("Sasl2StreamFeature", Sasl2StreamFeatureCode), ("Sasl2Failure", Sasl2Failure), ("Sasl2Abort", Sasl2Abort),
+  ("FastFeature", FastFeature), ("FastTokenRequest", FastTokenRequest), ("FastRequest", FastRequest),
+  ("Sasl2StreamFeature", Sasl2StreamFeature), ("Sasl2Failure", Sasl2Failure), ("Sasl2Abort", Sasl2Abort),
   ("ExtendedAddress", ExtendedAddress), ("BindIq", BindIq), ("VersionIq", VersionIq), ("IbbCloseIq", IbbCloseIq),
   ("SaslAuth", SaslAuth), ("SaslChallenge", SaslChallenge), ("SaslResponse", SaslResponse),
   ("Sasl2Challenge", Sasl2Challenge), ("Sasl2Response", Sasl2Response), ("Sasl2Continue", Sasl2Continue),
@@ -265,7 +261,7 @@ def all : List (String × Schema) := [
   ("PubSubAffiliation", PubSubAffiliation), ("SdpParameter", SdpParameter),
   ("RtpFeedbackInterval", RtpFeedbackInterval),
   ("TrustMessageKeyOwner", TrustMessageKeyOwner), ("TrustMessageElement", TrustMessageElement),
-  ("StreamFeatures", StreamFeaturesCode)]
+  ("StreamFeatures", StreamFeatures)]
 
 def find (name : String) : Option Schema := (all.find? (·.1 == name)).map (·.2)
 
